@@ -39,6 +39,11 @@ instantiations: `S` = `object<int(int), unregister::base>`, `P` = `object<int(in
   `KE c i` `container_c.erase(begin() + i)`; `KC c` `container_c.clear()`; `KA c c2` `container_c = std::move(container_c2)`
   (`c` < 4 containers = owners 16..19 of the model; holders = owners 0..15)
 
+* callbacks with effects: `AN f` callback `f` does nothing besides returning its value (default); `AR f h` it also resets
+  `holder_h`; `AK f c` it clears `container_c`; `AC f h s f2 u` it connects callback `f2` (unregister `u` where the base has
+  one) to signal `s` into `holder_h` if that holder is free and `s` alive.  The effects happen only inside
+  `rcall s init arg` / `rvcall s arg` (prints `<invoked>:<result | v>` and then the dump of the state the call left behind).
+
 dump: for every live signal `Ss=<invoked callbacks>:<result | v>|<empty()>|<callbacks met iterating connections() backwards>`
 (called with init 1, arg 2), then `unreg=<u>:<count>,…`; operations that can destroy connections append
 ` saw=` + for every unregister function that ran, in order, `u<id>@<what every live signal would invoke from inside it>` joined by `;`.
@@ -77,6 +82,7 @@ structure St where
   dead : Bool := false
   fam : List (Nat × Nat) := []        -- signal id → 0 `S`, 1 `P`, 2 `V`, 3 `W` (bookkeeping: which C++ type)
   its : List (Nat × ItSlot) := []     -- iterator slots, sorted by slot number
+  acts : List (Nat × List Nat) := []  -- callback id → [kind, params…] (1 reset owner, 2 connect h s f2 u)
 
 def St.sig (st : St) : Sig.State := st.hold.sig
 def St.store (st : St) : Store := st.hold.sig.store
@@ -408,6 +414,58 @@ def handle (st : St) (t : List String) : St × String :=
     | _, _ => (st, "bad-op")
   | _ => (st, "bad-op")
 
-def main : IO Unit := Proto.runState ({} : St) handle
+/-- the action table of an `rcall`, with the unregister id dropped where the signal's base has none -/
+def actOf (st : St) (f : Nat) : Hold.Act :=
+  match (st.acts.find? (·.1 == f)).map (·.2) with
+  | some [1, o] => .reset o
+  | some [2, h, s, f2, u] => .connect h s f2 (if famUnreg (famOf st s) then some u else none)
+  | _ => .none
+
+def handleAct (st : St) (t : List String) : Option (Option St) :=
+  let setA := fun (f : Nat) (a : List Nat) => some (some { st with acts := (f, a) :: st.acts.filter (·.1 != f) })
+  match t with
+  | ["AN", f] => match f.toNat? with
+    | some f => if f < 100 then setA f [0] else some none
+    | none => some none
+  | ["AR", f, h] => match f.toNat?, h.toNat? with
+    | some f, some h => if f < 100 ∧ h < maxElems then setA f [1, h] else some none
+    | _, _ => some none
+  | ["AK", f, c] => match f.toNat?, c.toNat? with
+    | some f, some c => if f < 100 ∧ c < maxConts then setA f [1, 16 + c] else some none
+    | _, _ => some none
+  | ["AC", f, h, s, f2, u] => match f.toNat?, h.toNat?, s.toNat?, f2.toNat?, u.toNat? with
+    | some f, some h, some s, some f2, some u =>
+      if f < 100 ∧ h < maxElems ∧ s < maxLists ∧ f2 < 100 ∧ u < 64 then setA f [2, h, s, f2, u] else some none
+    | _, _, _, _, _ => some none
+  | _ => none
+
+def handleRcall (st : St) (s init arg : Nat) (isVoid : Bool) : St × String :=
+  if !(s < maxLists ∧ st.store.live (.head s) ∧ famVoid (famOf st s) == isVoid ∧ init < 1000 ∧ arg < 1000) then (st, "bad-op") else
+  match Hold.rcall (actOf st) cbFn combFn isVoid st.hold s walkCap init arg with
+  | .ok r =>
+    let st' := { st with hold := r.st, spec := r.trace.foldl advanceSpec st.spec }
+    let res := if isVoid then "v" else toString r.acc
+    (st', s!"ok {idsStr r.log}:{res} " ++ sigDump st.fam r.st.sig ++ specSuffix st')
+  | .error .fuel => ({ st with dead := true }, "ok overrun")
+  | .error .emptyDeref => (st, "ok nocomb")
+  | .error f => ({ st with dead := true }, "fault:" ++ f.name)
+
+def handle2 (st : St) (t : List String) : St × String :=
+  match handleAct st t with
+  | some none => (st, "bad-op")
+  | some (some st') => (st', "ok")
+  | none =>
+  match t with
+  | ["rcall", s, i, a] =>
+    match s.toNat?, i.toNat?, a.toNat? with
+    | some s, some i, some a => if st.dead then (st, "dead") else handleRcall st s i a false
+    | _, _, _ => (st, "bad-op")
+  | ["rvcall", s, a] =>
+    match s.toNat?, a.toNat? with
+    | some s, some a => if st.dead then (st, "dead") else handleRcall st s 0 a true
+    | _, _ => (st, "bad-op")
+  | _ => handle st t
+
+def main : IO Unit := Proto.runState ({} : St) handle2
 
 end Fcppt.C11.Drv
